@@ -263,7 +263,15 @@ START_ONLY = ["rc.snap.chosen", "rs.remove.after", "rs.copy.after", "rc.restore.
               "pg.remove.before", "pg.remove.after"]
 START_ALSO = ["rd.begin", "rd.walsave.before", "rd.walsave.after", "ap.apply.before", "ps.snapfile.after",
               "sn.savesnap.after", "ck.save.before"]
-FOLLOWER_ONLY = ["rd.savesnap.before", "rd.savesnap.after", "rd.applysnap.before", "rd.applysnap.after", "rd.release.after", "rc.snap.none"]
+FOLLOWER_ONLY = ["rd.savesnap.before", "rd.savesnap.after", "rd.applysnap.before", "rd.applysnap.after", "rd.release.after", "rc.snap.none",
+                 "fs.local.ok", "fs.mark.after", "fs.copy.after", "fs.complete.after", "as.prepare.after", "as.raftdone.after", "as.restore.after"]
+# the sub-steps of an incoming snapshot's installation, in the follower's raft loop, apply loop and fetch; some
+# are also passed by a local snapshot / a restart: the k-th hit counts from the moment the follower is healed
+INSTALL_POINTS = ["fs.mark.after", "fs.copy.after", "fs.complete.after", "fs.local.ok", "as.prepare.after", "rd.savesnap.before",
+                  "ps.snapfile.after", "rd.savesnap.after", "rd.walsave.before", "rd.walsave.after", "rd.applysnap.before",
+                  "rd.applysnap.after", "as.raftdone.after", "rd.release.after", "rs.remove.after", "rs.copy.after", "as.restore.after",
+                  "ap.apply.after"]
+FOLLOWER_START = ["rc.snap.chosen", "fs.local.ok", "rs.remove.after", "rs.copy.after", "rc.restore.after", "rc.replay.after"]
 
 
 def run_points(known):
@@ -326,6 +334,124 @@ def gen_jobs(seed, ndirs, cycles, engines, known, cover_once=False):
     return jobs
 
 
+def gen_follower(seed, njobs, engines, cover_once=False, lives=3):
+    """three-replica jobs: a follower is down while the leader snapshots and compacts; it is restarted, gets the
+    snapshot (MsgSnap) and is killed at a sub-step of its installation, then restarted and healed again"""
+    rnd = __import__("random").Random(seed + 31)
+    pool = [("P", p) for p in INSTALL_POINTS]
+    if not cover_once:
+        pool = pool * 2 + [("S", p) for p in FOLLOWER_START] + [("X", "")] * 4
+    rnd.shuffle(pool)
+    jobs = []
+    pi = 0
+    for d in range(njobs):
+        specs = []
+        while len(specs) < lives:
+            kind, p = pool[pi % len(pool)]
+            pi += 1
+            if kind == "P":
+                k = 1 if (cover_once or rnd.random() < 0.75) else 2
+                specs.append("P:%s:%d:%d" % (p, k, rnd.choice([0, 0, 5, 30])))
+            elif kind == "S":
+                specs.append("S:%s:1" % p)
+            else:
+                specs.append("X:%d:%d" % (rnd.randint(0, 9), rnd.randint(0, 7)))
+        jobs.append(dict(seed=rnd.randrange(1 << 40), engine=engines[d % len(engines)], optfsync=(d % 3 != 2),
+                         pre_ops=rnd.randint(6, 18), gap_ops=rnd.randint(46, 64), during_ops=rnd.randint(6, 14), specs=specs, follower=True))
+    return jobs
+
+
+def _advance(states, o):
+    nxt = []
+    for st in states:
+        if o["status"] != "ack":
+            nxt.append(st.copy())
+        st.apply(o["cmd"])
+        nxt.append(st)
+    seen, out = set(), []
+    for st in nxt:
+        key = "\n".join(st.dump())
+        if key not in seen and len(out) < 64:
+            seen.add(key)
+            out.append(st)
+    return out
+
+
+def oracle_follower(runs):
+    """three-replica directory: what the killed follower serves from its own directory after every restart is the
+    state after a PREFIX of the group's write history (safety), and once healed it serves what the leader serves,
+    which is the whole history (convergence)"""
+    fails = []
+    stats = dict(follower_restarts_verified=0, follower_converged=0, follower_installs=0, follower_prefix_behind=0)
+    history = []
+    for r in runs:
+        history.append(r["spec"])
+        ident = dict(dir=r["dir"], run=r["run"], engine=r["engine"], optfsync=r["optfsync"], specs=list(history), follower=True)
+        stats["follower_installs"] += sum(1 for e in (r.get("events") or []) if e.startswith("as.restore.after"))
+        if r["start"].startswith("env-failure"):
+            stats["env_failures"] = stats.get("env_failures", 0) + 1
+            return fails, stats
+        if r["start"] == "died-at-startup-point":
+            continue
+        if r["start"] != "ready":
+            fails.append(dict(name="follower-norestart-d%d-r%d" % (r["dir"], r["run"]),
+                              case=dict(ident, start=r["start"], log=(r.get("log") or "")[-3000:], listing=r.get("listing")),
+                              what="the follower did not come back on its own directory after the crash (%s): %s" % (history[-2] if len(history) > 1 else "-", r["start"]),
+                              sig_hint=sig_of_log(r.get("log") or "", r["start"])))
+            return fails, stats
+        if r["run"] == 0:
+            continue
+        dumpv = r.get("dump") or []
+        died = r.get("death") in ("crashpoint", "startup-crashpoint")
+        if (not dumpv or dumpv[0].startswith("DUMP-ERROR")) and died:
+            continue          # the armed point fired before the isolated follower could be read
+        if dumpv and dumpv[0].startswith("DUMP-ERROR"):
+            fails.append(dict(name="follower-dumperr-d%d-r%d" % (r["dir"], r["run"]), case=dict(ident, dump=dumpv, log=(r.get("log") or "")[-2000:]),
+                              what="reading the restarted (isolated) follower failed: " + dumpv[0]))
+            return fails, stats
+        # ---- safety: a prefix-state ----
+        hist = r.get("history") or []
+        states = [Ref()]
+        found = 0 if states[0].dump() == dumpv else None
+        for j, o in enumerate(hist):
+            states = _advance(states, o)
+            if any(st.dump() == dumpv for st in states):
+                found = j + 1      # the longest prefix that explains the dump
+        if found is None:
+            full = Ref()
+            for o in hist:
+                if o["status"] == "ack":
+                    full.apply(o["cmd"])
+            fails.append(dict(name="follower-state-d%d-r%d" % (r["dir"], r["run"]),
+                              case=dict(ident, crash=history[-2] if len(history) > 1 else None, applied=r.get("applied"), writes=len(hist),
+                                        diff_vs_all_acked=explain_diff(full.dump(), dumpv), last_events=prev_events_tail(runs, r)),
+                              what="after the restart the isolated follower serves data that is not the result of applying a prefix of the group's writes"))
+            return fails, stats
+        stats["follower_restarts_verified"] += 1
+        stats["follower_prefix_behind"] += len(hist) - found
+        # ---- convergence ----
+        conv = r.get("converged")
+        if conv == "yes":
+            cd, ld = r.get("conv_dump") or [], r.get("lead_dump") or []
+            full = [Ref()]
+            for o in (r.get("ops") or []):
+                full = _advance(full, o)
+            if cd != ld or not any(st.dump() == ld for st in full):
+                fails.append(dict(name="follower-converge-d%d-r%d" % (r["dir"], r["run"]),
+                                  case=dict(ident, crash=history[-2] if len(history) > 1 else None,
+                                            follower_vs_leader=explain_diff(ld, cd), leader_vs_reference=explain_diff(full[-1].dump(), ld),
+                                            last_events=(r.get("events") or [])[-25:]),
+                                  what="after catching up the follower does not serve what the leader serves (or the leader does not serve the acknowledged writes)"))
+                return fails, stats
+            stats["follower_converged"] += 1
+        elif conv == "timeout":
+            fails.append(dict(name="follower-noconverge-d%d-r%d" % (r["dir"], r["run"]),
+                              case=dict(ident, crash=history[-2] if len(history) > 1 else None, last_events=(r.get("events") or [])[-25:]),
+                              what="the restarted follower did not catch up with the leader within 25 s"))
+            return fails, stats
+    return fails, stats
+
+
 def gen_systematic(seed, engines, known, ks):
     """thorough: every named point at every k of ks (and with a stall), two crashes per directory"""
     rnd = __import__("random").Random(seed + 7)
@@ -355,13 +481,13 @@ def port_base():
     return 32000 + (os.getpid() % 6) * 125
 
 
-def run_harness(ctx, sub, jobs, workers):
+def run_harness(ctx, sub, jobs, workers, follower=False):
     d = os.path.join(ctx.run_dir, sub)
     shutil.rmtree(d, ignore_errors=True)
     os.makedirs(d)
     rp = os.path.join(d, "jobs.json")
     json.dump(dict(jobs=jobs), open(rp, "w"))
-    cmd = "%s -replay %s -out %s -workers %d -port %d" % (os.path.join(vlib.BIN, "crashnode"), rp, d, workers, port_base())
+    cmd = "%s %s-replay %s -out %s -workers %d -port %d" % (os.path.join(vlib.BIN, "crashnode"), "-follower " if follower else "", rp, d, workers, port_base())
     rc, out, dt = sh(cmd, cwd=d, timeout=3000)
     if rc != 0:
         return None, out
@@ -408,7 +534,7 @@ def evaluate(d, jobs):
     events = 0
     samples = []
     for di, runs in sorted(dirs.items()):
-        f, st = oracle_dir(runs)
+        f, st = oracle_follower(runs) if runs and runs[0].get("role") == "follower" else oracle_dir(runs)
         for x in f:
             x["case"]["job"] = jobs[di] if di < len(jobs) else None
         fails += f
@@ -478,10 +604,12 @@ def run(ctx):
             corpus += json.load(open(fp))["jobs"]
         batches.append(("corpus", corpus))
         if quick:
+            batches.append(("follower", gen_follower(ctx.seed, 6, ["pebble", "rocksdb", "mem"], cover_once=True)))
             batches.append(("fresh", gen_jobs(ctx.seed, 12, 4, ["pebble", "rocksdb", "mem"], known, cover_once=True)))
         else:
             batches.append(("fresh", gen_jobs(ctx.seed, 320, 9, engines, known)))
             batches.append(("systematic", gen_systematic(ctx.seed, engines, known, [1, 2, 3, 4, 5, 8, 13, 21, 34, 47, 55, 69])))
+            batches.append(("follower", gen_follower(ctx.seed, 160, engines, lives=4)))
 
     all_fail, all_mism, stats_all, hist_all, samples = [], [], {}, {}, []
     model_stats = {}
@@ -500,7 +628,7 @@ def run(ctx):
             pending_topup = False
         if not jobs:
             continue
-        d, err = run_harness(ctx, name, jobs, workers)
+        d, err = run_harness(ctx, name, jobs, workers, follower=bool(jobs and jobs[0].get("follower")))
         if d is None:
             log("HARNESS RUN FAILED:\n" + err[-3000:])
             raise SystemExit(2)
@@ -535,7 +663,7 @@ def run(ctx):
             hist_all[k] = max(hist_all.get(k, 0), v) if k.startswith("max_") else hist_all.get(k, 0) + v
         if pending_topup:
             got = set(k.split(":", 1)[1] for k in hist_all if k.startswith("killed_at:"))
-            miss = [p for p in known if p not in FOLLOWER_ONLY and p not in got]
+            miss = [p for p in known if p not in FOLLOWER_ONLY and p not in got]   # (the follower points have their own batch)
             if miss:
                 rnd = __import__("random").Random(ctx.seed + 99)
                 tj = []
@@ -565,7 +693,7 @@ def run(ctx):
     purge_interval_s = 60 * int(mm_iv.group(1)) if mm_iv else None
     max_life_s = hist_all.get("max_life_ms", 0) / 1000.0
     killed_at = sorted(k.split(":", 1)[1] for k in hist_all if k.startswith("killed_at:"))
-    never_killed_at = [p for p in known if p not in FOLLOWER_ONLY and p not in killed_at]
+    never_killed_at = [p for p in known if p != "rc.snap.none" and p not in killed_at]
     if never_killed_at and not ctx.replay:
         ctx.notes.append("named crash points at which no kill fired in this run: " + ",".join(never_killed_at))
     if unknown_pts or missing_pts:
